@@ -147,7 +147,7 @@ def run(ctx):
             if len(parts) == 3 and parts[0] == "blk" and parts[2] == ".dat":
                 num = parts[1]
                 inner = None
-                if isinstance(num, T) and num.op == "m:zfill" and num.args[1] == 5 and isinstance(num.args[0], T) and num.args[0].op == "tostr":
+                if isinstance(num, T) and num.op == "m:zfill" and num.args[1] == 5 and isinstance(num.args[0], T) and (num.args[0].op == "tostr" or (num.args[0].op == "fmt" and num.args[0].args[1] is None)):
                     inner = num.args[0].args[0]
                 elif isinstance(num, T) and num.op == "fmt" and num.args[1] in ("05d", "05"):
                     inner = num.args[0]
